@@ -20,9 +20,9 @@ def run_cases(ctx, which="c01"):
     rng = ctx.rng
     quick = ctx.tier == "quick"
     jobs = []
-    for k, prog in enumerate(core.corner_programs()):      # fixed corner csvpaths, each over three generated files
-        for r in range(3):
-            jobs.append((prog, core.gen_rows(rng), f"c01_c{k}_{r}.csv"))
+    for k, prog in enumerate(core.corner_programs()):      # fixed corner csvpaths, each over three generated files (or over its own rows)
+        for r in range(1 if prog.get("rows") else 3):
+            jobs.append((prog, prog.get("rows") or core.gen_rows(rng), f"c01_c{k}_{r}.csv"))
     for i in range(900 if quick else 40000):
         prog = core.gen_program(rng)
         jobs.append((prog, core.gen_rows(rng, echo=prog["textonly"]), f"c01_{i}.csv"))
